@@ -341,7 +341,78 @@ fn f4(seed: u64, root: &Path, t: &mut Trace, ctr: &mut Counters, prop: &str) -> 
 // ------------------------------------------------------------------------------------------
 // 1: locked-tree stability
 
+/// Variant: the removal of A is already queued when the reader locks A; B (sharing A's nodes) is
+/// inserted under the lock; the lock AND the reader handle are released before the log worker
+/// makes any step.  The removal of A must still wait for B's references.
+fn late_lock(seed: u64, root: &Path, t: &mut Trace, ctr: &mut Counters, prop: &str) -> bool {
+	let mut rng = Rng::new(seed ^ 0x1a7e);
+	let depth = rng.range(2, 3) as u32;
+	let keep_handle = rng.chance(1, 3);
+	t.begin_case(&format!("seed={} stability late-lock depth={} keep_handle={}", seed, depth, keep_handle));
+	let dir = fresh_dir(root, &format!("c11-ll-{}", seed));
+	let db = Db::open_or_create(&options(&dir, false)).expect("create");
+	let mut st = Stepper { db: &db, dirty: 0 };
+	let mut tag = 0;
+	let mut ok = true;
+	let a = gen_tree(&mut rng, depth, &mut tag);
+	let ka = key_of(1);
+	insert_tree(&db, &ka, &a, &HashMap::new()).unwrap();
+	st.drain(2);
+	// removal of A queued, nothing processed yet
+	db.commit_changes(vec![(TREE_COL, Operation::DereferenceTree(ka.clone()))]).unwrap();
+	let reader = db.get_tree(TREE_COL, &ka).unwrap().expect("tree A exists");
+	let guard = reader.read();
+	let mut addrs = HashMap::new();
+	let mut n_a = 0;
+	if !matches!(walk(&**guard, &a, &mut addrs, &mut n_a), Ok(true)) {
+		t.oracle_fail(prop, "late-lock: tree A does not read back under the lock");
+		ok = false;
+	}
+	let b = gen_derived(&mut rng, &a, &mut tag);
+	let kb = key_of(2);
+	insert_tree(&db, &kb, &b, &addrs).unwrap();
+	drop(guard);
+	let kept = if keep_handle { Some(reader) } else { drop(reader); None };
+	st.drain(8);
+	match verify_tree(&db, &ka, &a, &mut HashMap::new()) {
+		Ok(false) => ctr.inc("latelock.removal_completed"),
+		other => {
+			t.oracle_fail(prop, &format!("late-lock: postponed removal of A did not complete after unlock: {:?}", other));
+			ok = false;
+		},
+	}
+	match verify_tree(&db, &kb, &b, &mut HashMap::new()) {
+		Ok(true) => ctr.inc("latelock.b_intact"),
+		other => {
+			t.oracle_fail(prop, &format!("late-lock: tree B (inserted under the lock, sharing nodes of A) not intact after the removal of A: {:?}", other));
+			ok = false;
+		},
+	}
+	let entries = db.get_num_column_value_entries(TREE_COL).unwrap();
+	let want = expected_entries(&[&b]);
+	if entries != want {
+		t.oracle_fail(prop, &format!("late-lock: {} value entries, expected {}", entries, want));
+		ok = false;
+	}
+	drop(kept);
+	db.commit_changes(vec![(TREE_COL, Operation::DereferenceTree(kb.clone()))]).unwrap();
+	st.drain(3);
+	let entries = db.get_num_column_value_entries(TREE_COL).unwrap();
+	if entries != 0 {
+		t.oracle_fail(prop, &format!("late-lock: {} value entries left after every tree was dereferenced", entries));
+		ok = false;
+	}
+	drop(db);
+	let _ = std::fs::remove_dir_all(&dir);
+	ctr.inc("cases.stability_late_lock");
+	t.end_case(true);
+	ok
+}
+
 fn stability(seed: u64, root: &Path, t: &mut Trace, ctr: &mut Counters, prop: &str) -> bool {
+	if (seed / 5) % 2 == 1 {
+		return late_lock(seed, root, t, ctr, prop)
+	}
 	let mut rng = Rng::new(seed);
 	let deref_first = rng.chance(1, 2);
 	let depth = rng.range(2, 3) as u32;
